@@ -214,6 +214,8 @@ pub struct RunReport {
     pub counters: BTreeMap<String, u64>,
     /// short description of the outcome class, for "distinct outcomes" statistics
     pub outcome_class: String,
+    /// canonical rendering of the observable result, for cross-run (history) checks
+    pub detail: String,
 }
 
 pub trait Check: Sync {
